@@ -685,7 +685,10 @@ func genMarkupLine(t *rapid.T) markupLine {
 			if seg.Close == "all" {
 				open = nil
 			}
-			if prevWasText && seg.Close == "" && seg.K != "nomarkup" && rapid.IntRange(0, 2).Draw(t, "reptrim") == 0 {
+			// (only behind at least two characters of text: of a single blank behind a swallowing marker nothing would be left,
+			// and what "preceded by white space" means for a marker directly behind another marker is not stated)
+			if n := len(l.Segs); prevWasText && n > 0 && l.Segs[n-1].K == "text" && utf8.RuneCountInString(l.Segs[n-1].S) >= 2 &&
+				seg.Close == "" && seg.K != "nomarkup" && rapid.IntRange(0, 2).Draw(t, "reptrim") == 0 {
 				seg.Props = append(seg.Props, mprop{"trimwhitespace", "bool", rapid.SampledFrom([]string{"true", "true", "false"}).Draw(t, "tw")})
 			}
 			l.Segs = append(l.Segs, seg)
